@@ -48,8 +48,32 @@ def affine_event(darsia, rng, dim, ks, tid):
     s1 = A.inverse(A(single))
     if np.asarray(s1).shape != single.shape or not np.allclose(np.asarray(s1), single, atol=1e-9):
         back = np.full_like(pts, 1e6)
+    # typed calls: the map declared to take points of one kind (coordinate / voxel / voxel centre) to another returns objects
+    # of the declared kinds - single point or batch - holding the values of the plain-array map (voxels floored, centres +1/2)
+    typed_ok = 1
+    kinds = {"X": (darsia.Coordinate, darsia.CoordinateArray, lambda z: z), "V": (darsia.Voxel, darsia.VoxelArray, lambda z: np.floor(z)),
+             "C": (darsia.VoxelCenter, darsia.VoxelCenterArray, lambda z: np.floor(z) + 0.5)}
+    # (kinds that floor - voxels, voxel centres - only for maps without rotation and scaling: cos(pi/2) = 6e-17 puts exact
+    # images next to a voxel boundary, the subject of the open finding on voxel-typed quarter turns)
+    k1, k2 = (rng.choice("XVC"), rng.choice("XVC")) if (sn == sd and all(k % 4 == 0 for k in ks)) else ("X", "X")
+    try:
+        raw_in = pts + (0.5 if k1 == "C" else 0.0)
+        tin = kinds[k1][1](raw_in.copy())
+        B = darsia.AffineTransformation(dim)
+        B.set_parameters(translation=np.array(t, dtype=float), scaling=sn / sd, rotation=np.array([k * math.pi / 2 for k in ks]))
+        B.set_dtype(kinds[k1][1](raw_in[:1].copy()), kinds[k2][1](raw_in[:1].copy()))
+        want = kinds[k2][2](np.round(B.call_array(raw_in), 9))
+        got = B(tin)
+        got1 = B(kinds[k1][0](raw_in[0].copy()))
+        typed_ok &= int(type(got) is kinds[k2][1] and np.allclose(np.asarray(got, dtype=float), want, atol=1e-9))
+        typed_ok &= int(type(got1) is kinds[k2][0] and np.asarray(got1).shape == (dim,) and np.allclose(np.asarray(got1, dtype=float), want[0], atol=1e-9))
+        wantb = kinds[k1][2](np.round(B.inverse_array(np.asarray(got, dtype=float)), 9))
+        gotb = B.inverse(got)
+        typed_ok &= int(type(gotb) is kinds[k1][1] and np.allclose(np.asarray(gotb, dtype=float), wantb, atol=1e-9))
+    except Exception:  # noqa
+        typed_ok = 0
     return {"tid": tid, "op": "affine", "dim": dim, "k": list(ks), "sn": sn, "sd": sd, "t": t, "R": imat(A.rotation), "Rinv": imat(A.rotation_inv),
-            "pts": ipts(pts), "fwd2": ipts(fwd, 2), "back": ipts(back), "back2": ipts(back2)}
+            "pts": ipts(pts), "fwd2": ipts(fwd, 2), "back": ipts(back), "back2": ipts(back2), "typed_ok": typed_ok, "kinds": k1 + k2}
 
 
 def fit_events(darsia, rng, dim, tid):
